@@ -35,6 +35,11 @@ pub fn generate(verif_seed: u64, idx: u64, property: &str, thorough: bool) -> Sc
     cfg.p_fail_site = *rng.pick(&[0, 30, 100]);
     cfg.max_probes = 8;
     cfg.max_depth = cfg.max_depth.min(4);
+    // towers of nested unary operators around a call: deep evaluations suspended side by side
+    if rng.chance(1, 12) {
+        cfg.p_tower = 300;
+        cfg.max_tower = if thorough { 900 } else { 320 };
+    }
     scn.text_build = rng.chance(1, 16);
     let nrules = 1 + rng.usize(4);
     let names = crate::c05::rule_names(&mut rng, nrules);
@@ -47,6 +52,14 @@ pub fn generate(verif_seed: u64, idx: u64, property: &str, thorough: bool) -> Sc
         let d = g.cfg.max_depth;
         let expr = g.gen(ty, d);
         scn.rules.push(RuleSpec { name: names[i].clone(), expr });
+    }
+    // volume (thorough tier only, rare): one rule making tens of thousands of calls with distinct
+    // arguments — per-ruleset counters, budgets, intern tables and bounded caches only show at volume
+    let volume = thorough && rng.chance(1, 1500);
+    if volume {
+        let n = 1000 + rng.below(75_000) as u32;
+        let f = crate::gen::fn_for(*rng.pick(&[Ty::Int, Ty::Str, Ty::Bool]));
+        scn.rules.push(RuleSpec { name: "volume".into(), expr: X::ManyCalls(f.to_string(), 1_000_000, n) });
     }
     // the symbol table read back through a rule: compared with the reference like everything else
     scn.rules.push(RuleSpec { name: "symtab".into(), expr: X::Vec(syms.iter().map(|(n, _)| X::Sym(n.clone())).collect()) });
@@ -95,9 +108,17 @@ pub fn generate(verif_seed: u64, idx: u64, property: &str, thorough: bool) -> Sc
         let tag = rng.below(ntasks as u64) as u32;
         scn.functions[fi].rows.insert(0, ScriptRow { key: None, tag: Some(tag), ordinal: Some(0), out: ScriptOut::Fail(format!("tagged failure in evaluation {tag}")) });
     }
-    let p_susp = *rng.pick(&[300, 600, 900, 1000]);
+    let p_susp = if volume { 300 } else { *rng.pick(&[300, 600, 900, 1000]) };
     for t in 0..ntasks {
         scn.behaviour.extend(random_behaviour(&mut rng, t, 40, p_susp, 3));
+    }
+    if volume {
+        // a few suspensions deep inside the volume rule as well, so that evaluations overlap there
+        for t in 0..ntasks {
+            for _ in 0..6 {
+                scn.behaviour.push(Beh { task: t, call: rng.below(70_000) as u32, susp: vec![Susp::SelfWake, Susp::Deferred(2_000_000)], panic: false });
+            }
+        }
     }
     // abandonment: one victim, by cancellation point, deadline or a panicking function; then its retry
     let victim = rng.usize(ntasks);
@@ -131,9 +152,10 @@ pub fn generate(verif_seed: u64, idx: u64, property: &str, thorough: bool) -> Sc
     // abandonment storm: many evaluations of the same ruleset object dropped midway, one after
     // another or at once, before a final one runs — state that leaks a little per abandoned
     // evaluation (a slot, a counter, a lock) only shows after enough of them
-    if rng.chance(1, 6) {
-        let max = if thorough { 200 } else { 48 };
-        let n = 4 + rng.below(max - 4) as usize;
+    if !volume && rng.chance(1, 6) {
+        // sizes are log-uniform: most storms are small, a few are very large (thorough: up to ~6000)
+        let max_log = if !thorough { 7.3 } else if rng.chance(1, 10) { 12.6 } else { 9.0 };
+        let n = (2.0f64.powf(2.0 + (rng.below(1000) as f64 / 1000.0) * (max_log - 2.0))) as usize;
         let chained = rng.chance(2, 3);
         let storm_kind = *rng.pick(&[0u64, 0, 0, 1, 2, 3, 4, 5, 5]);
         let first = scn.tasks.len();
@@ -168,9 +190,9 @@ pub fn generate(verif_seed: u64, idx: u64, property: &str, thorough: bool) -> Sc
         3 => (0, 300),     // slow executor: clock runs ahead of runnable tasks
         _ => (50, 50),
     };
-    scn.picks = random_picks(&mut rng, 200 + 4 * total, total, p_spur, p_adv);
+    scn.picks = random_picks(&mut rng, 200 + 4 * total.min(500), total, p_spur, p_adv);
     scn.exec.fresh_waker = rng.chance(1, 4);
-    scn.exec.max_steps = 3000 + 40 * total as u32;
+    scn.exec.max_steps = 3000 + 40 * total as u32 + if volume { 600_000 } else { 0 };
     scn
 }
 
@@ -345,6 +367,19 @@ pub fn judge(scn: &Scenario, out: &RunOut, c: &mut Counters) -> Verdict {
     }
     if n_abandoned >= 64 {
         c.bump("hit.sixtyfour_or_more_evaluations_abandoned_on_one_ruleset");
+    }
+    if n_abandoned >= 4096 {
+        c.bump("hit.4096_or_more_evaluations_abandoned_on_one_ruleset");
+    }
+    if out.wstats.invocations >= 65_536 {
+        c.bump("hit.65536_or_more_invocations_in_one_run");
+    }
+    fn tower_height(x: &X) -> u32 {
+        let own = if let X::Tower(_, n, _) = x { *n } else { 0 };
+        own + x.children().into_iter().map(tower_height).max().unwrap_or(0)
+    }
+    if out.stats.interleave_switch > 0 && scn.rules.iter().any(|r| tower_height(&r.expr) > 250) {
+        c.bump("hit.interleaved_evaluations_nested_deeper_than_250");
     }
     let concurrent = out.stats.interleave_switch > 0;
     Verdict::pass(if concurrent || any_abandoned { Some(sig) } else { None })
